@@ -660,6 +660,11 @@ def annotate_fn(sf, item, blk, counts, meta, mode, qual_name, extra_ensures=None
         counts.bump(rule, max(cnt, n) if cnt == -1 else cnt)
 
     body = apply_ref_patterns(body, counts)
+    # R7 (generic): debug_assert_eq!(a, b) / assert_eq!(a, b) -> debug_assert!(a == b) / assert!(a == b)
+    def _eq_sub(m):
+        counts.bump('R7')
+        return '%s!((%s) == (%s));' % (m.group(1), m.group(2).strip(), m.group(3).strip())
+    body = re.sub(r'\b(debug_assert|assert)_eq!\(([^,;]+),([^;]+)\);', _eq_sub, body)
 
     # loops
     loops = find_loops(body)
